@@ -75,6 +75,24 @@ type Out struct {
 	EarlierConflict bool `json:"ec,omitempty"`
 	// fsave: the failed step as a fault of the Coq model, and what the live store answered right after the failure
 	Fault *FaultObs `json:"fault,omitempty"`
+	// bytes: raw contents of the directory (slot records, cell length words, meta records)
+	Raw *RawObs `json:"raw,omitempty"`
+}
+
+// RawObs: for entry file number Fi (ordered by first index, files without entries last) the slot records [St, St+N) as bytes
+// and the length words of the cells of the live ones; the hard state record at offset 512 and the 16 bytes at offset 1024
+// of raft.meta.
+type RawObs struct {
+	Wins []RawWin `json:"wins"`
+	HS   []int    `json:"hs"`
+	SH   []int    `json:"sh"`
+}
+type RawWin struct {
+	Fi int      `json:"fi"`
+	St int      `json:"st"`
+	N  int      `json:"n"`
+	B  []uint64 `json:"b"`
+	L  []uint64 `json:"l"`
 }
 
 // FaultObs: K clear|entry|hs|snap, J/Rot for entry (see faultOf), Rep = the Save reported an error; F, L, Cnt, Sum = first
@@ -83,6 +101,7 @@ type FaultObs struct {
 	K   string `json:"k"`
 	J   int    `json:"j"`
 	Rot bool   `json:"rot"`
+	C   uint64 `json:"c"` // clear: slots already cleared (from the top) by completed pieces when the failing piece was issued
 	Rep bool   `json:"rep"`
 	F   uint64 `json:"f"`
 	L   uint64 `json:"l"`
@@ -483,6 +502,13 @@ func (w *world) apply(op *Op) (o Out) {
 		if len(cs.Voters) != len(wantCS) {
 			w.fail("meta", "InitialState conf state %v, saved %v", cs.Voters, wantCS)
 		}
+	case "bytes":
+		raw, err := readRaw(filepath.Join(w.dir, "__raft_entries__"))
+		if err != nil {
+			w.fail("bytes", "reading the directory: %v", err)
+			o.E = 9
+		}
+		o.Raw = raw
 	case "sum":
 		// whole log, read back in pieces like NumEntries does, against the reference
 		mf, ml := msFirstLast(w.ms)
@@ -575,6 +601,16 @@ func runCase(kind string, src source) *Case {
 		c.Ops = append(c.Ops, *op)
 		c.Outs = append(c.Outs, w.apply(op))
 		c.Stats[op.K]++
+	}
+	// at the end of every case: a clean restart (leftovers of failed steps are removed by Init), then the raw bytes of
+	// the directory for the byte layer of the model
+	if len(c.Oracle) == 0 {
+		for _, k := range []string{"reopen", "bytes"} {
+			op := &Op{K: k}
+			c.Ops = append(c.Ops, *op)
+			c.Outs = append(c.Outs, w.apply(op))
+			c.Stats[op.K]++
+		}
 	}
 	w.close()
 	_ = os.RemoveAll(dir)
@@ -679,4 +715,147 @@ func main() {
 			gen.Emit(runCase("count", genSource(r.Fork(), "count")))
 		}
 	}
+}
+
+// readRaw reads slot records, cell length words and meta records straight from the files.
+func readRaw(dir string) (*RawObs, error) {
+	names, err := filepath.Glob(filepath.Join(dir, "*.entry"))
+	if err != nil {
+		return nil, err
+	}
+	type ef struct {
+		name  string
+		first uint64
+	}
+	var files []ef
+	be64 := func(b []byte) uint64 {
+		var x uint64
+		for _, c := range b[:8] {
+			x = x<<8 | uint64(c)
+		}
+		return x
+	}
+	es := raftlog.VerifEntrySize
+	for _, nm := range names {
+		f, err := os.Open(nm)
+		if err != nil {
+			return nil, err
+		}
+		b := make([]byte, es)
+		_, err = f.ReadAt(b, 0)
+		f.Close()
+		if err != nil {
+			return nil, err
+		}
+		files = append(files, ef{nm, be64(b[8:])})
+	}
+	sort.Slice(files, func(i, j int) bool {
+		a, b := files[i], files[j]
+		if (a.first == 0) != (b.first == 0) {
+			return b.first == 0
+		}
+		if a.first != b.first {
+			return a.first < b.first
+		}
+		return a.name < b.name
+	})
+	raw := &RawObs{Wins: []RawWin{}}
+	ints := func(b []byte) []int {
+		out := make([]int, len(b))
+		for i, c := range b {
+			out[i] = int(c)
+		}
+		return out
+	}
+	for fi, e := range files {
+		f, err := os.Open(e.name)
+		if err != nil {
+			return nil, err
+		}
+		// number of live slots: the first slot with index 0
+		live, max := 0, raftlog.VerifMaxNumEntries
+		buf := make([]byte, 128*es)
+	scan:
+		for live < max {
+			n := 128
+			if live+n > max {
+				n = max - live
+			}
+			if _, err := f.ReadAt(buf[:n*es], int64(live*es)); err != nil {
+				f.Close()
+				return nil, err
+			}
+			for k := 0; k < n; k++ {
+				if be64(buf[k*es+8:]) == 0 {
+					live += k
+					break scan
+				}
+			}
+			live += n
+		}
+		win := func(st, n int) error {
+			if st+n > max {
+				n = max - st
+			}
+			if n <= 0 {
+				return nil
+			}
+			b := make([]byte, n*es)
+			if _, err := f.ReadAt(b, int64(st*es)); err != nil {
+				return err
+			}
+			w := RawWin{Fi: fi, St: st, N: n, B: []uint64{}, L: []uint64{}}
+			for k := 0; k+8 <= len(b); k += 8 {
+				w.B = append(w.B, be64(b[k:])) // the file bytes, eight at a time, as big-endian words
+			}
+			for k := 0; k < n; k++ {
+				if be64(b[k*es+8:]) == 0 {
+					continue
+				}
+				lw := make([]byte, 4)
+				if _, err := f.ReadAt(lw, int64(be64(b[k*es+24:]))); err != nil {
+					return err
+				}
+				w.L = append(w.L, uint64(lw[0])<<24|uint64(lw[1])<<16|uint64(lw[2])<<8|uint64(lw[3]))
+			}
+			raw.Wins = append(raw.Wins, w)
+			return nil
+		}
+		head := live + 2
+		if head > 10 {
+			head = 10
+		}
+		err = win(0, head)
+		if err == nil && live > 10 {
+			err = win(live-5, 7)
+		}
+		f.Close()
+		if err != nil {
+			return nil, err
+		}
+	}
+	mf, err := os.Open(filepath.Join(dir, "raft.meta"))
+	if err != nil {
+		return nil, err
+	}
+	defer mf.Close()
+	lw := make([]byte, 4)
+	if _, err := mf.ReadAt(lw, 512); err != nil {
+		return nil, err
+	}
+	n := int(lw[0])<<24 | int(lw[1])<<16 | int(lw[2])<<8 | int(lw[3])
+	if n > 400 {
+		n = 400
+	}
+	rec := make([]byte, 4+n)
+	if _, err := mf.ReadAt(rec, 512); err != nil {
+		return nil, err
+	}
+	raw.HS = ints(rec)
+	sh := make([]byte, 16)
+	if _, err := mf.ReadAt(sh, 1024); err != nil {
+		return nil, err
+	}
+	raw.SH = ints(sh)
+	return raw, nil
 }
